@@ -24,6 +24,7 @@ type caseResult struct {
 	stats        map[string]int
 	wbUntil      int
 	gethCompared int
+	fatal        []string
 }
 
 var drvMu sync.Mutex
@@ -36,7 +37,11 @@ func evalCase(c *Case, drv *lib.Driver, guard bool) *caseResult {
 		cr.findings = append(cr.findings, finding{sig: "l1-client-panics", what: cr.obs.Panic})
 	}
 	if cr.obs.Stalled != "" {
-		cr.mismatches = append(cr.mismatches, lib.Mismatch{Sig: "client-did-not-reach-barrier", Input: c, Impl: cr.obs.Stalled})
+		// a deadline of the harness expired (or the case was skipped after too many of them):
+		// never green; the oracle still looks at what was observed
+		cr.fatal = append(cr.fatal, "case "+c.Name+": "+cr.obs.Stalled)
+		fs, _, _ := oracle(c, cr.an.sems)
+		cr.findings = append(cr.findings, fs...)
 		return cr
 	}
 	for _, p := range cr.an.problems {
@@ -51,10 +56,14 @@ func evalCase(c *Case, drv *lib.Driver, guard bool) *caseResult {
 	outs, err := drv.AskAll(lines)
 	drvMu.Unlock()
 	if err != nil {
-		cr.mismatches = append(cr.mismatches, lib.Mismatch{Sig: "driver-error", Impl: err.Error()})
+		cr.fatal = append(cr.fatal, "Lean driver died or answered short: "+err.Error())
 		return cr
 	}
 	for i, s := range cr.an.steps {
+		if outs[i] == "bad-op" {
+			cr.fatal = append(cr.fatal, "Lean driver answered bad-op to: "+s.line)
+			break
+		}
 		want := s.expect
 		if want == "" {
 			want = "ok"
@@ -71,10 +80,10 @@ func evalCase(c *Case, drv *lib.Driver, guard bool) *caseResult {
 	// feed: every value seen on the L1-head feed is one of the notified heads, in order
 	j := 0
 	for _, f := range cr.obs.Feed {
-		for j < len(cr.obs.Notes) && cr.obs.Notes[j] != f {
+		for j < len(cr.obs.FeedSent) && cr.obs.FeedSent[j] != f {
 			j++
 		}
-		if j == len(cr.obs.Notes) {
+		if j == len(cr.obs.FeedSent) {
 			cr.findings = append(cr.findings, finding{sig: "l1head-feed-value-never-set",
 				what: fmt.Sprintf("feed delivered %s which is not among the heads set, in order", (&f).String())})
 			break
@@ -86,10 +95,10 @@ func evalCase(c *Case, drv *lib.Driver, guard bool) *caseResult {
 	for name, got := range map[string][]HeadJ{"slow": cr.obs.FeedSlow, "idle": cr.obs.FeedIdle} {
 		j := 0
 		for _, f := range got {
-			for j < len(cr.obs.Notes) && cr.obs.Notes[j] != f {
+			for j < len(cr.obs.FeedSent) && cr.obs.FeedSent[j] != f {
 				j++
 			}
-			if j == len(cr.obs.Notes) {
+			if j == len(cr.obs.FeedSent) {
 				cr.findings = append(cr.findings, finding{sig: "l1head-feed-value-never-set",
 					what: fmt.Sprintf("the %s feed subscriber received %s which is not among the heads set, in order", name, (&f).String())})
 				break
@@ -97,11 +106,38 @@ func evalCase(c *Case, drv *lib.Driver, guard bool) *caseResult {
 			j++
 		}
 	}
-	if len(cr.obs.Notes) > 0 && (len(cr.obs.FeedIdle) != 1 || cr.obs.FeedIdle[0] != cr.obs.Notes[0]) {
-		cr.mismatches = append(cr.mismatches, lib.Mismatch{Sig: "feed-slot-semantics: an idle subscriber must hold the first head set",
-			Input: c, Model: cr.obs.Notes[0], Impl: cr.obs.FeedIdle})
+	// the idle subscriber against the model's Subscriber.step: every head sent, then one receive
+	{
+		fl := []string{"feednew"}
+		for _, h := range cr.obs.FeedSent {
+			fl = append(fl, fmt.Sprintf("feedsend %x %x %x", h.L2, h.Hash, h.Root))
+		}
+		fl = append(fl, "feedrecv", "feedgot")
+		drvMu.Lock()
+		fo, err := drv.AskAll(fl)
+		drvMu.Unlock()
+		if err != nil {
+			cr.fatal = append(cr.fatal, "Lean driver died or answered short: "+err.Error())
+			return cr
+		}
+		got := "-"
+		if len(cr.obs.FeedIdle) > 0 {
+			var xs []string
+			for i := range cr.obs.FeedIdle {
+				xs = append(xs, (&cr.obs.FeedIdle[i]).String())
+			}
+			got = strings.Join(xs, ",")
+		}
+		if fo[len(fo)-1] != got {
+			cr.mismatches = append(cr.mismatches, lib.Mismatch{Sig: "feed-subscriber: idle subscriber differs from the model",
+				Input: c, Model: fo[len(fo)-1], Impl: got})
+		}
 	}
-	if cr.obs.EndedEarly && !c.ChainIDMismatch {
+	if c.DBFault != "" && cr.obs.DBFaultFired && !headEq(cr.obs.FinalHead, lastHeadBeforeFault(cr)) {
+		cr.findings = append(cr.findings, finding{sig: "l1head-changed-by-a-failed-database-operation",
+			what: "the stored head changed although the read / write of the stored head failed"})
+	}
+	if cr.obs.EndedEarly && !c.ChainIDMismatch && !cr.obs.DBFaultFired {
 		cr.mismatches = append(cr.mismatches, lib.Mismatch{Sig: "run-returned-before-cancel", Input: c, Impl: cr.obs.RunErr})
 	}
 	if c.ChainIDMismatch && !headEq(cr.obs.FinalHead, c.Stored) {
@@ -143,6 +179,16 @@ func evalCase(c *Case, drv *lib.Driver, guard bool) *caseResult {
 	return cr
 }
 
+// lastHeadBeforeFault: the stored head sampled at the start of the poll whose database access failed.
+func lastHeadBeforeFault(cr *caseResult) *HeadJ {
+	for i := len(cr.obs.Marks) - 1; i >= 0; i-- {
+		if cr.obs.Marks[i].Kind == "tick" {
+			return cr.obs.Marks[i].HeadBefore
+		}
+	}
+	return cr.c.Stored
+}
+
 func suLine(l Log) string {
 	rm := "0"
 	if l.Removed {
@@ -160,21 +206,26 @@ func checkGethLayer(cr *caseResult, drv *lib.Driver) {
 	for _, p := range o.GethProblems {
 		cr.mismatches = append(cr.mismatches, lib.Mismatch{Sig: "geth-layer: " + p, Input: c})
 	}
-	lines := make([]string, len(o.Emitted))
-	for i, l := range o.Emitted {
+	lines := make([]string, 0, len(o.Emitted)+1)
+	for _, l := range o.Emitted {
 		root, number, hash := rawValues(l)
 		rm := "0"
 		if l.Removed {
 			rm = "1"
 		}
-		lines[i] = fmt.Sprintf("fwd %x %x %x %x %s", number, hash, root, l.L1, rm)
+		lines = append(lines, fmt.Sprintf("raw %x %x %x %x %s", number, hash, root, l.L1, rm))
 	}
+	lines = append(lines, "fwdstream") // the model's forwardStream on the whole stream
 	drvMu.Lock()
-	want, err := drv.AskAll(lines)
+	outs, err := drv.AskAll(lines)
 	drvMu.Unlock()
 	if err != nil {
-		cr.mismatches = append(cr.mismatches, lib.Mismatch{Sig: "driver-error", Impl: err.Error()})
+		cr.fatal = append(cr.fatal, "Lean driver died or answered short: "+err.Error())
 		return
+	}
+	var want []string
+	if last := outs[len(outs)-1]; last != "-" {
+		want = strings.Split(last, "|")
 	}
 	got := make([]string, len(o.Events))
 	for i, l := range o.Events {
@@ -322,24 +373,20 @@ func main() {
 	r := lib.NewRNG(f.Seed)
 	drv, err := lib.StartDriver(f.Driver)
 	if err != nil {
-		res.Note("driver: %v", err)
+		res.Fatalf("driver did not start: %v", err)
 		lib.Finish(f, res)
 	}
 	defer drv.Close()
 
-	// Which code variant is there? (the model follows the code: guard = the stored head is compared)
-	probe := evalCase(leadL11(), drv, false)
-	guard := false
-	if probe.obs.FinalHead != nil && probe.obs.FinalHead.L2 == 50 {
-		guard = true
-	}
-	res.Note("code variant: setL1Head compares with the stored head = %v (lead L11 probe ends with head %s)", guard, probe.obs.FinalHead.String())
-
+	// The code as it is in /repo compares the candidate with the stored head (commit 5084dce):
+	// the model is run with guard = true. If the guard regresses, correspondence AND the oracle
+	// (l1head-moves-back-to-late-delivered-older-event, a fixed finding) report it.
+	guard := true
 	var cases []*Case
 	if f.Replay != "" {
 		b, err := os.ReadFile(f.Replay)
 		if err != nil {
-			res.Note("replay: %v", err)
+			res.Fatalf("replay: %v", err)
 			lib.Finish(f, res)
 		}
 		var wrap struct {
@@ -348,14 +395,15 @@ func main() {
 			} `json:"replay"`
 		}
 		if err := json.Unmarshal(b, &wrap); err != nil || wrap.Replay.Case == nil {
-			res.Note("replay: cannot read case from %s: %v", f.Replay, err)
+			res.Fatalf("replay: cannot read case from %s: %v", f.Replay, err)
 			lib.Finish(f, res)
 		}
 		for i := 0; i < 5; i++ {
 			cases = append(cases, wrap.Replay.Case)
 		}
 	} else {
-		cases = append(cases, leadL11())
+		cases = append(cases, leadL11(), leadOvertake())
+		cases = append(cases, dbFaultCases()...)
 		cases = append(cases, enumCases(f.Scale(3, 4))...)
 		cases = append(cases, boundaryCases()...)
 		cases = append(cases, faultCases()...)
@@ -522,6 +570,9 @@ func main() {
 		}
 		for _, m := range cr.mismatches {
 			res.Mismatch(m)
+		}
+		for _, ft := range cr.fatal {
+			res.Fatalf("%s", ft)
 		}
 		if len(o.Notes) > 0 {
 			res.Sample(8, map[string]any{"case": c.Name, "ops": len(c.Ops), "events": len(o.Events), "polls": countKind(o.Marks, "tick"),
